@@ -57,8 +57,59 @@ LEGACY = (" L" if os.environ.get("VERIF_C13_LEGACY") else "") + (" M" if os.envi
 
 def head(hints, pool, kinds, closefd=False):
     """closefd: the close callback closes the descriptor (muggle_ev_ctx_close), as the
-    library's own socket layer does"""
-    return ["cfg %d %d%s%s" % (hints, pool, LEGACY, " C" if closefd else "")] + ["fd %s" % k for k in kinds]
+    library's own socket layer does; closefd == "R": additionally a context added in that callback
+    takes over the descriptor NUMBER just released (what the kernel hands out to a reconnect in the
+    close callback). Descriptor numbers are invisible at the level of the model (contexts are
+    identified by descriptor identity), so the model treats R like C; the real back-ends must too."""
+    flag = " R" if closefd == "R" else (" C" if closefd else "")
+    return ["cfg %d %d%s%s" % (hints, pool, LEGACY, flag)] + ["fd %s" % k for k in kinds]
+
+
+def gen_fd_reuse(ctx, rng, exact):
+    """reconnect-on-close: the close callback of context c closes its descriptor and adds new
+    contexts, the first of which gets c's descriptor number; input for them arrives in later rounds
+    (sometimes it is already pending). Only add actions inside the close callback (they are performed
+    after the descriptor has been closed).
+    exact=True : c is closed by another context's callback (shutdown), so its bit is not in select's
+                 result set of that round and the real back-ends must produce the model's trace exactly.
+    exact=False: c is closed because its peer closed; select's result set then still holds the bit of
+                 the recycled number and the new context legitimately gets one read callback in the
+                 same round (before its first input): event positions differ from the model, so these
+                 cases are compared at outcome level (bytes delivered per context, closed/cleared)."""
+    nd = rng.choice([3, 3, 4, 5]) if exact else rng.choice([2, 2, 3, 4])
+    kinds = [rng.choice(KINDS) for _ in range(nd)]
+    if exact:
+        c, a = 1, 0
+        kinds[c] = rng.choice(["sock", "tcp"])
+        others = [d for d in range(nd) if d not in (a, c)]
+    else:
+        c = rng.randrange(nd)
+        others = [d for d in range(nd) if d != c]
+    ops = head(rng.choice([nd, nd + 1, 16]), rng.randrange(2), kinds, "R")
+    later = [d for d in others if rng.random() < 0.7] or [others[0]]
+    pre = ["a:%d" % d for d in range(nd) if d not in later]
+    rng.shuffle(pre)
+    if exact:
+        # a before c in the context list: a's read callback flags c, the scan reaches c afterwards
+        pre = ["a:%d" % a] + [x for x in pre if x != "a:%d" % a]
+    if rng.random() < 0.3:
+        pre.append("w:%d:%d" % (rng.choice(later), rng.choice([1, 3, 64])))
+    ops.append("pre " + " ".join(pre))
+    ops.append("on cl %d %s" % (c, " ".join("a:%d" % d for d in later)))
+    k = 0
+    if exact:
+        ops.append("on by %d 1 s:%d" % (a, c))
+        ops.append("on idle 0 w:%d:1" % a)
+    else:
+        ops.append("on idle 0 %s" % rng.choice(["p:%d" % c, "h:%d" % c, "w:%d:2 p:%d" % (c, c)]))
+    k = 1
+    for _ in range(rng.choice([1, 2, 3])):
+        acts = []
+        for d in rng.sample(later, rng.randrange(1, len(later) + 1)):
+            acts.append(rng.choice(["w:%d:%d" % (d, rng.choice([1, 2, 5, 64])), "p:%d" % d, "h:%d" % d]))
+        ops.append("on idle %d %s" % (k, " ".join(acts)))
+        k += 1
+    return ops + tail("Q")
 
 
 def gen_exhaustive(ctx):
@@ -256,6 +307,8 @@ def gen_cases(ctx):
         cases.append(gen_class_q(ctx, rng, ndm))
     for _ in range(400 if q else 6000):
         cases.append(gen_general(ctx, rng, ndm))
+    for _ in range(150 if q else 2000):
+        cases.append(gen_fd_reuse(ctx, rng, True))
     cases += gen_malformed(ctx, rng)
     return cases
 
@@ -327,6 +380,40 @@ def judge(ops, out):
     return None
 
 
+def outcome_correspondence(ctx, hcmd, dcmd, cases, label):
+    """Tie at outcome level (see gen_fd_reuse, exact=False): for every `run <back-end>` line only the
+    part after ` ; ` (bytes delivered per context, closed / cleared) and the `agree` verdict are
+    compared with the model; the life-cycle / agreement oracle judges the implementation's own trace."""
+    impl = vlib.run_cases(hcmd, cases)
+    model, _ = vlib.split_model_spec(vlib.run_cases(dcmd, cases))
+
+    def proj(ops, out):
+        return [l.split(" ; ", 1)[-1] if o.startswith("run ") else l for o, l in zip(ops, out)]
+    nbad_model, nbad_prop, first = 0, 0, None
+    for ops, a, b in zip(cases, impl, model):
+        msg = ("crash: " + a["crash"][:800]) if a["crash"] else judge(ops, a["out"])
+        if msg:
+            nbad_prop += 1
+            if nbad_prop <= 2:
+                def fails(o2):
+                    r = vlib.run_one(hcmd, o2)
+                    return bool(r["crash"] or judge(o2, r["out"]))
+                small = vlib.ddmin(ops, fails, keep_prefix=1)
+                r = vlib.run_one(hcmd, small)
+                ctx.violation({"kind": "property-fails-on-implementation", "tie": label, "ops": small,
+                               "what": ("crash: " + r["crash"][:800]) if r["crash"] else judge(small, r["out"]),
+                               "implementation": r["out"], "broken_obligations": ctx.broken}, found_input=True)
+        elif proj(ops, a["out"]) != proj(ops, b["out"]):
+            nbad_model += 1
+            first = first or {"ops": ops, "implementation": a["out"], "model": b["out"]}
+    ctx.cov["evaluations"] += len(cases)
+    ctx.cov["distinct_nontrivial"] += len({tuple(c) for c, a in zip(cases, impl) if nontrivial(c, a["out"])})
+    ctx.cov["ties"][label] = {"cases": len(cases), "differ_model": nbad_model, "differ_spec": nbad_prop}
+    if nbad_model:
+        ctx.broken.append("%s: model and implementation outcomes differ on %d case(s)" % (label, nbad_model))
+        ctx.model_diff = first
+
+
 def nontrivial(ops, out):
     s = " ".join(out)
     return ("R" in s) and any(t[0] == "R" and not t.endswith(":0") and not t.endswith(":0e")
@@ -354,6 +441,8 @@ def main(ctx):
         return
     cases = gen_cases(ctx)
     vlib.seq_correspondence(ctx, hcmd, dcmd, cases, nontrivial=nontrivial, keep_prefix=1, judge=judge)
+    outcome_correspondence(ctx, hcmd, dcmd, [gen_fd_reuse(ctx, ctx.rng, False) for _ in range(150 if ctx.quick else 2000)],
+                           "tieB_fd_number_reuse_outcomes")
     ctx.cov["exhaustive"] = True
     ctx.cov["explanation"] = ("exhaustive=true refers to the bounded script space described in rule; "
                               "the theorems are unbounded")
